@@ -363,7 +363,7 @@ def hermes_lookup(ctx, rule):
         return
     roles = {fmv[0]: "fm"}
     d = [sh for sh, _, _ in q.def_shapes(b, fmv[0], {})]
-    ctx.check(d == ["try(Option::as_ref(try(slice::get(arg1.function_maps,cast<usize>(Token::get_src_id(arg2))))))"], rule, fn, "by-src-id",
+    ctx.check(d == ["try(Option::as_ref(try(slice::get(arg1.function_maps,cast<usize>(arg2.raw.src_id)))))"], rule, fn, "by-src-id",
               "the function map is function_maps.get(src_id)?.as_ref()? (nothing when the source has none)", detail=str(d))
     calls = [(bi, b.expr_of_call(t)) for bi, t in b.calls() if q.callee_matches(t, "utils::greatest_lower_bound")]
     if not ctx.check(len(calls) == 1, rule, fn, "glb", "one greatest_lower_bound lookup"):
@@ -371,7 +371,7 @@ def hermes_lookup(ctx, rule):
     c = calls[0][1]
     ctx.check(q.shape(c.args[0], roles) == "fm.mappings", rule, fn, "glb:haystack", "the lookup runs over that map's offsets", detail=q.shape(c.args[0], roles))
     key = q.shape(c.args[1], roles)
-    ctx.check(key in ("tuple(try(u32::checked_add(Token::get_src_line(arg2),1)),Token::get_src_col(arg2))", "tuple(u32::saturating_add(Token::get_src_line(arg2),1),Token::get_src_col(arg2))"), rule, fn, "glb:key",
+    ctx.check(key in ("tuple(try(u32::checked_add(arg2.raw.src_line,1)),Token::get_src_col(arg2))", "tuple(u32::saturating_add(arg2.raw.src_line,1),Token::get_src_col(arg2))"), rule, fn, "glb:key",
               "the key is (original line + 1 [1-based], original column), computed without overflow", detail=key)
     cl = None
     for x in c.args[2].walk():
